@@ -154,7 +154,12 @@ func (e *vmEnvironment) newVMConfig() *vm.Config {
 	conf.ValidateAccountCapabilitiesGetHandler = newValidateAccountCapabilitiesGetHandler(&e.Interface)
 	conf.ValidateAccountCapabilitiesPublishHandler = newValidateAccountCapabilitiesPublishHandler(&e.Interface)
 	conf.ElaborationResolver = e.resolveElaboration
-	conf.StackDepthLimit = defaultStackDepthLimit
+
+	stackDepthLimit := e.config.StackDepthLimit
+	if stackDepthLimit == 0 {
+		stackDepthLimit = defaultStackDepthLimit
+	}
+	conf.StackDepthLimit = stackDepthLimit
 
 	if interpreter.TracingEnabled {
 		conf.Tracer = interpreter.CallbackTracer(newOnRecordTraceHandler(&e.Interface))
